@@ -11,6 +11,7 @@ is exercised by the boundary-alphabet runs of the check.
 -/
 import Pastel.Lemmas.Clamp
 import Pastel.Lemmas.LightMono
+import Pastel.Lemmas.Turns
 
 namespace Pastel.C05
 open Pastel Sc ScOrd
@@ -155,5 +156,16 @@ theorem toLch_chroma_nonneg (c : Color ℝ) : 0 ≤ (toLch c).y := by
   unfold toLch
   simp only [real_sqrt]
   exact Real.sqrt_nonneg _
+
+
+/-- **For finite angles a hue shifted by whole turns denotes the same colour**: `from_hsla` with
+the hue `h + 360·k` (any integer `k`) has exactly the float channels of `from_hsla` with hue `h`
+(exact arithmetic). -/
+theorem whole_turns_same_color (h s l a : ℝ) (k : ℤ) :
+    toRgbaFloat (fromHsla (h + 360 * k) s l a) = toRgbaFloat (fromHsla h s l a) := by
+  refine toRgbaFloat_whole_turns (fromHsla h s l a) (fromHsla (h + 360 * k) s l a) k ?_ rfl rfl rfl
+  show hueFrom (h + 360 * k) = hueFrom h + 360 * k
+  unfold hueFrom
+  simp only [real_isFinite, if_true]
 
 end Pastel.C05
